@@ -85,8 +85,11 @@ def _from_soap(in_envelope_xml, xmlids=None, **kwargs):
         header = header_envelope[0].getchildren()
 
     body = None
-    if len(body_envelope) > 0 and len(body_envelope[0]) > 0:
-        body = body_envelope[0][0]
+    if len(body_envelope) > 0:
+        # the first *element*: comments, processing instructions and entity
+        # references are not body entries
+        for body in body_envelope[0].iterchildren(tag=etree.Element):
+            break
 
     return header, body
 
@@ -123,16 +126,22 @@ def _parse_xml_string(xml_string, parser, charset=None):
 
 # see http://www.w3.org/TR/2000/NOTE-SOAP-20000508/
 # section 5.2.1 for an example of how the id and href attributes are used.
-def resolve_hrefs(element, xmlids):
+def resolve_hrefs(element, xmlids, _following=()):
     for e in element:
         if e.get('id'):
             continue # don't need to resolve this element
 
         elif e.get('href'):
-            resolved_element = xmlids[e.get('href').replace('#', '')]
+            xmlid = e.get('href').replace('#', '')
+            resolved_element = xmlids.get(xmlid)
             if resolved_element is None:
                 continue
-            resolve_hrefs(resolved_element, xmlids)
+
+            if xmlid in _following:
+                raise Fault('Client.SoapError', 'The reference %r is part of '
+                                           'a cycle' % (e.get('href'),))
+
+            resolve_hrefs(resolved_element, xmlids, _following + (xmlid,))
 
             # copies the attributes
             [e.set(k, v) for k, v in resolved_element.items()]
@@ -144,7 +153,7 @@ def resolve_hrefs(element, xmlids):
             e.text = resolved_element.text
 
         else:
-            resolve_hrefs(e, xmlids)
+            resolve_hrefs(e, xmlids, _following)
 
     return element
 
